@@ -512,6 +512,53 @@ def dotGet (T : Tables) (name : Str) (e : El) : Option PyVal × El :=
       let (v, e') := getAttribute T L.attr (if L.event then .none else .str []) e
       (some v, e')
 
+/-! ### dot access of names with a special-value rule (`TAG_ITEM_ATTRIBUTES_SPECIAL_VALUES`)
+
+  Every rule of the table reads one attribute through `em.getAttribute(attr, default)` and converts what it
+  got (`convertToIntOrNegativeOneIfUnset`, `convertToIntRangeCapped`, `convertPossibleValues`, … — the conversion
+  functions and the literal arguments are C19's subject and enter here as a parameter); `_special_value_maxLength`
+  tests `hasAttribute` first. The defaults of the table are not all strings (`1`, `20`, `None`): the default is left
+  symbolic (`none` = "`getAttribute` handed back its default"). The rule `form` reads the DOM, not the attribute
+  store, and is outside this model. -/
+
+/-- `attributes.get(key, default)` with the default left symbolic (`none` = the default is handed back) -/
+def mapGetOpt (T : Tables) (k : Str) (e : El) : Option PyVal × El :=
+  let k := lower k
+  if k = classK then (some (.str e.className), e)
+  else if k = styleK then (some (getitem T k e), e)
+  else
+    let r := keys e
+    if r.1.contains k then (some (getitem T k r.2), r.2) else (none, r.2)
+
+/-- `getAttribute(attrName, default)` with the default left symbolic -/
+def getAttributeOpt (T : Tables) (name : Str) (e : El) : Option PyVal × El :=
+  if T.binary.contains name then
+    if contains name e then
+      let v := getitem T name e
+      (some (if v.falsy then .bool true else v), e)
+    else (some (.bool false), e)
+  else mapGetOpt T name e
+
+/-- One rule of `TAG_ITEM_ATTRIBUTES_SPECIAL_VALUES` (for the element's tag), as far as the attribute store
+    is concerned. `ρ` is the type of the values the rule returns (ints, strings, None, token lists: C19). -/
+structure SpecialRule (ρ : Type) where
+  attr : Str               -- the attribute the rule reads
+  guard : Option ρ         -- `if not em.hasAttribute(attr): return g` (only `_special_value_maxLength`)
+  onDefault : ρ            -- the conversion applied to the rule's default (what the rule answers when unset)
+  conv : PyVal → ρ         -- the conversion applied to a value `getAttribute` found
+
+/-- `tag.<name>` for a linked name with a special-value rule `R`: never raises in the attribute store -/
+def dotGetSpecial {ρ : Type} (T : Tables) (R : SpecialRule ρ) (e : El) : ρ × El :=
+  match R.guard with
+  | some g =>
+    if hasAttribute R.attr e then
+      let r := getAttributeOpt T R.attr e
+      ((match r.1 with | none => R.onDefault | some v => R.conv v), r.2)
+    else (g, e)
+  | none =>
+    let r := getAttributeOpt T R.attr e
+    ((match r.1 with | none => R.onDefault | some v => R.conv v), r.2)
+
 /-! ### construction, copies -/
 
 def El.empty (tag : Str) (sc : Bool) : El := { tag := lower tag, sc := sc, dict := [], cls := [], sty := [] }
